@@ -107,6 +107,24 @@ def splitscope():
     return run
 
 
+def warnings_t1():
+    def run(tier: str, seed: int, prop: str) -> CompResult:
+        import t1_warnings
+
+        return t1_warnings.run(tier, seed)
+
+    return run
+
+
+def remote_t1():
+    def run(tier: str, seed: int, prop: str) -> CompResult:
+        import t1_remote
+
+        return t1_remote.run(tier, seed)
+
+    return run
+
+
 def restart_default():
     def run(tier: str, seed: int, prop: str) -> CompResult:
         import t1_options
@@ -185,6 +203,11 @@ PROPS: dict[str, dict[str, Any]] = {
                         "the CPU count is an environment parameter of the model (measured with os.sched_getaffinity)",
                         "int() of non-ASCII digit strings is outside the model"],
     },
+    "C14": {
+        "components": [warnings_t1(), e2e("warnings")],
+        "assumptions": ["what the controller can do with a class (import it, call its constructor) is an environment parameter of the model, determined by probing",
+                        "execnet's dumps/loads and the warnings module are exercised, not modelled; builtins.Warning is importable"],
+    },
     "C17": {
         "components": [system(["lifecycle", "budget", "crash", "lifecycle"], 450, 9000), receiver()],
         "assumptions": ["deaths are injected at: before workerready, during collection, right after collectionfinish, inside a test, between tests, instead of workerfinished; "
@@ -196,6 +219,12 @@ PROPS: dict[str, dict[str, Any]] = {
         "components": [system(["plain", "collecterr", "crash"], 300, 6000), receiver(), e2e("reports")],
         "assumptions": ["pytest's report (de)serialisation is exercised on real reports (T2 with constructed TestReport objects, T3 with real test outcomes), not modelled",
                         "with --dist loadgroup the reported id carries the documented '@group' suffix; ids are compared modulo that suffix"],
+    },
+    "C19": {
+        "components": [remote_t1()],
+        "assumptions": ["pathlib normalisation, exists() and resolve() are environment parameters of the model; the harness works on a real scratch tree",
+                        "fnmatch bracket corner cases ([]...], [^...], backslashes, reversed ranges) are outside the model; patterns are generated inside the modelled fragment",
+                        "no ssh/socket gateway exists in this sandbox: remote specs are only constructed, never connected"],
     },
     "C18": {
         "components": [looponfail()],
